@@ -1,6 +1,7 @@
 package main
 
 import (
+	"strings"
 	"encoding/json"
 	"os"
 )
@@ -43,10 +44,32 @@ func propExplanation(prop string) string {
 
 func assumptionsFor(g *Gen, prop string) []string {
 	out := []string{
-		"SQL text -> AST (sqlparser.Parse) is trusted; theorems are stated over ASTs and Go values",
-		"library functions are replaced by the assumed contracts listed in DESIGN.md section 2.6 (fmt, strings, strconv, regexp, sort, maps, bytes.Buffer, sync, crypto, encoding)",
-		"goroutine interleavings are not modelled (a go statement is a fork whose effects are havocked; lock/ownership obligations stand in for schedules)",
+		"SQL text -> AST (sqlparser.Parse) is trusted; theorems are stated over ASTs and Go values; AST node lists contain no nil entry and the engine's callees do not write AST fields",
+		"go/packages, go/types and go/ssa (golang.org/x/tools v0.29.0) give a faithful IR of the working tree; the SSA->SMT translation of govc is trusted (guarded by the must-fail and harmless-edit corpora and by replay of refutations)",
+		"machine arithmetic is NOT treated as mathematical: integers are bit-vectors of their Go width, floats are IEEE-754 (SMT FloatingPoint); only allocation time stamps are mathematical integers; float->int conversion of out-of-range values is left unspecified, as in Go",
+		"library contracts assumed, not proved: fmt.Sprintf(\"%v\", x) is a function FmtV(x) with FmtV(string s) = s; other Sprintf calls are uninterpreted functions of their arguments; strings.Compare is a total order returning -1/0/1; strings.ToLower/ToUpper are functions (the Unicode case maps); strings.Split/SplitN around a non-empty separator return at least one piece; strings.ReplaceAll and the other string functions without a model are deterministic functions of their arguments; utf8.DecodeRuneInString returns a width between 0 and min(4, len), 0 iff the string is empty; regexp.FindAllString of a pattern whose syntax tree has minimum match length >= 1 returns non-empty matches (the minimum is computed by the generator); sort.Slice permutes its slice and calls less inside it; bytes.Buffer / strings.Builder writes and hash.Hash.Write never fail; sha256/sha1/md5/sha512.New return usable hashes; sync.Mutex/RWMutex/WaitGroup follow a ghost held/counter model; maps.Copy copies every entry; every other library call returns fresh unconstrained results and may modify anything reachable from its arguments",
+		"user-supplied functions (registered functions, CTE thunks, error handlers) may do anything to what they can reach, except that they do not write the rows they are handed and do not panic inside error handlers; function values stored in documents and function tables are non-nil",
+		"goroutine interleavings are not modelled (a go statement is a fork whose body is verified as a function against its own contract; lock, ownership and wait-group obligations stand in for schedules; data-race freedom follows under the Go memory model's DRF-SC guarantee)",
+		"lock state is call-invariant: every function that locks carries lock-balance obligations, so by induction over the call tree a call returns with every mutex as it found it",
+		"scalar cells (bool, float64, string) reachable only through one pointer are not aliased by other objects; `called(F)` is false at and after a loop head for calls inside the loop body and is used only positively",
 		"slices, strings and maps are smaller than 2^40 elements (Go's allocator guarantees far less)",
+		"no unsafe code and no cgo in the module (checked: the packages import neither unsafe nor C)",
+		"termination is proved only where a contract gives a measure; recursion over the finite AST and the finite document is not measured",
+	}
+	if g != nil {
+		var ws []string
+		for _, key := range g.contractOrder {
+			k := g.contracts[key]
+			if k != nil && len(k.Writes) > 0 {
+				ws = append(ws, key+" writes "+strings.Join(k.Writes, ", "))
+			}
+			if k != nil && k.Trusted != "" {
+				ws = append(ws, key+" trusted: "+k.Trusted)
+			}
+		}
+		if len(ws) > 0 {
+			out = append(out, "write permissions and trusted contracts declared in the contract files (not proved): "+strings.Join(ws, "; "))
+		}
 	}
 	out = append(out, g.specAxioms...)
 	return out
